@@ -178,7 +178,7 @@ def common (keys : List Str) : Str :=
   match keys with
   | [] => []
   | [k] => pathDirname k
-  | _ => (commonpath keys).getD []
+  | _ => (commonpath (keys.map pathDirname)).getD []     -- directory parts only (since the F33 repair)
 
 /-- The patterns actually matched: wildcard prefix `*/` unless the name already starts with the common path. -/
 def prefixed (cm : Str) (name : Str) : Str :=
@@ -196,7 +196,8 @@ def listAll (keys : List Str) : List Str := keys
 /-- `TsDB.list(…, relative=True)`. -/
 def listRelative (cwd : Str) (keys : List Str) (names : Option (List Str)) : List Str :=
   let cm := common keys
-  (match names with | none => keys | some ns => listKeys keys ns).map fun k => pathRelpath cwd k cm
+  (match names with | none => keys | some ns => listKeys keys ns).map fun k =>
+    if cm.isEmpty then k else pathRelpath cwd k cm            -- no common path: keys as they are (F34 repair)
 
 inductive GetErr | lookup | value
 deriving Repr, DecidableEq
@@ -211,7 +212,10 @@ def getKey (keys : List Str) (name : Str) : Except GetErr Str :=
 /-- `name in db`. -/
 def contains (keys : List Str) (name : Str) : Bool := !(listKeys keys [name]).isEmpty
 
-/-- Dictionary keys returned by `getm(…, fullkey=False)`: `k.replace(common + '/', '')`. -/
-def retKey (keys : List Str) (k : Str) : Str := replaceAll (common keys ++ [sep]) [] k
+/-- Dictionary keys returned by `getm(…, fullkey=False)`: a leading `common + '/'` is removed (F35 repair; before, every
+occurrence was replaced). -/
+def retKey (keys : List Str) (k : Str) : Str :=
+  let c := common keys ++ [sep]
+  if c.isPrefixOf k then k.drop c.length else k
 
 end Qats.Names
